@@ -78,7 +78,9 @@ static void viol(const std::string &cls, const std::string &sig, const std::stri
 	g_rs->rep->violations.push_back(v);
 	// TSan's choice of which racing pair to report depends on shadow-cell state left by earlier runs of the
 	// same process, so race reports stay out of the run fingerprint (they are an oracle output, not an event)
-	if (cls != "TSAN_RACE") rt::g_log.ev("violation", rt::sched_current_task(), op, rt::fnv64(cls.data(), cls.size()), rt::fnv64(sig.data(), sig.size()));
+	// (notes - what follows an injected mprotect refusal, what a cold history leaves allocated - are logged as notes: they are not results)
+	const bool is_note = v.cls.compare(0, 11, "COLD_START_") == 0 || v.cls.compare(0, 20, "AFTER_MPROTECT_FAULT_") == 0;
+	if (cls != "TSAN_RACE") rt::g_log.ev(is_note ? "note" : "violation", rt::sched_current_task(), op, rt::fnv64(cls.data(), cls.size()), rt::fnv64(sig.data(), sig.size()));
 }
 
 static void drain_tsan(int op) {
